@@ -1,16 +1,22 @@
 """C15 - file contents do not depend on the write mode; raw byte chunks pass unchanged."""
 import gen_flw as g
 
-CLAIM = ("Proved in Coq for the model (Numbers naming, size criterion): the files left after stop are the greedy partition of the written "
-         "records and chunks, a function of the operation sequence alone - hence identical for Direct and for every buffer capacity "
-         "(C15_modes_numbers, a corollary of C08_partition_numbers), and the stream is exactly the concatenation of the chunks "
-         "(C15_raw_numbers, from C01). For the other namings, the age criteria and the asynchronous mode the property is decided per "
-         "explored history: the same operation sequence is run through Direct, BufferDontFlush(c) and Async{pool, message capacity} "
-         "on the implementation and the three final directories must be identical (names and bytes), and equal to the model's; raw "
-         "chunks include empty chunks, chunks without line ending, every single byte value, the former control contents \"F\" and "
-         "\"S\", and chunks larger than any buffer. The asynchronous writer thread is made deterministic for this comparison by "
-         "schedule points (each message is worked off before the next operation): real interleavings are the subject of C03.")
-THEOREMS = ["C15_modes_numbers", "C15_raw_numbers"]
+CLAIM = ('Proved in Coq for the model (Numbers naming, size criterion): the files left after stop are the greedy partition of '
+         'the written records and chunks, a function of the operation sequence alone - hence identical for Direct and for every '
+         'buffer capacity (C15_modes_numbers, a corollary of C08_partition_numbers), and the stream is exactly the concatenation '
+         'of the chunks (C15_raw_numbers, from C01). For the other namings, the age criteria and the asynchronous mode the '
+         'property is decided per explored history: the same operation sequence is run through Direct, BufferDontFlush(c) and '
+         'Async{pool, message capacity} on the implementation and the three final directories must be identical (names and '
+         "bytes), and equal to the model's; raw chunks include empty chunks, chunks without line ending, every single byte "
+         'value, the former control contents "F" and "S", and chunks larger than any buffer. The asynchronous writer thread is '
+         'made deterministic for this comparison by schedule points (each message is worked off before the next operation): real '
+         "interleavings are the subject of C03. Asynchronous mode (proved, under the model's and harness's scheduling in which "
+         'the writer thread consumes each message before the next operation): for ANY configuration the asynchronous run passes '
+         'through exactly the same worlds as the synchronous run of the same history as long as that one returns normal results, '
+         'observations equal up to the rotation flag, which the asynchronous caller never sees (C15_async_simulates_sync); for '
+         'Numbers naming unconditionally: same worlds at every point, same final files across Direct / Buffered / Async '
+         '(C15_worlds_numbers_async, C15_modes_numbers_async, C15_raw_numbers_async, C15_async_observations). ')
+THEOREMS = ["C15_modes_numbers", "C15_raw_numbers", "C15_modes_numbers_async", "C15_raw_numbers_async", "C15_worlds_numbers_async", "C15_async_simulates_sync", "C15_async_observations"]
 TRUSTED = ["modelled, not verified: BufWriter, crossbeam channel (FIFO), the buffer pool; the async writer thread is synchronised with the "
            "caller through the schedule-point hooks during the correspondence runs"]
 ASSUMPTIONS = ["single logging thread; with an age criterion the asynchronous mode reads the clock when the message is consumed - "
